@@ -33,6 +33,23 @@ func (r *FnRun) env(st, old *State) *Env {
 		e.vars[k] = v
 		e.vtypes[k] = r.ptypes[k]
 	}
+	// positional names param0, param1, ... (receiver first) and the authoring-time
+	// names of the contract's `params` clause: contracts do not depend on how the
+	// parameters are called in the working tree
+	if r.Fn != nil {
+		for i, p := range r.Fn.Params {
+			if v, ok := r.params[p.Name()]; ok {
+				e.vars[fmt.Sprintf("param%d", i)] = v
+				e.vtypes[fmt.Sprintf("param%d", i)] = p.Type()
+				if r.C != nil && i < len(r.C.Params) && r.C.Params[i] != "_" {
+					if _, taken := e.vars[r.C.Params[i]]; !taken {
+						e.vars[r.C.Params[i]] = v
+						e.vtypes[r.C.Params[i]] = p.Type()
+					}
+				}
+			}
+		}
+	}
 	for k, v := range r.lets {
 		e.vars[k] = v
 	}
